@@ -258,6 +258,17 @@ def merge (s o : TileJSON N) : TileJSON N :=
   let v3 := o.values.foldl (fun m kv => if (kv.1 = kMinzoom ∨ kv.1 = kMaxzoom) ∧ (getByte? o.values kv.1).isSome then m else insertKV kv.1 kv.2 m) v2
   { bounds := bounds, center := center, values := v3, layers := mergeLayers s.layers o.layers }
 
+/-- `TileSource::build_tile_json` (`versatiles/src/tools/server/sources/tile_source.rs:93-110`):
+    clone of the reader's document, `update_from_pyramid`, then `type`, `name`, `format` and the
+    `tiles` URL template are set. -/
+def served (t : TileJSON N) (bbox : Option (N × N × N × N)) (zmin zmax : Option Nat)
+    (typeStr idStr formatStr urlPrefix : List Char) : TileJSON N :=
+  let t1 := updateFromPyramid nu t bbox zmin zmax
+  let v1 := insertKV "type".toList (.str typeStr) t1.values
+  let v2 := insertKV "name".toList (.str idStr) v1
+  let v3 := insertKV "format".toList (.str formatStr) v2
+  { t1 with values := insertKV "tiles".toList (.list [urlPrefix ++ "{z}/{x}/{y}".toList]) v3 }
+
 end
 
 /-! ### driver instantiation: binary64 via `Float` -/
